@@ -640,10 +640,16 @@ Lemma ts_run_state_acc ops ts acc :
   fst (fold_left ts_step ops (ts, acc)) = fold_left ts_update (updates_of ops) ts.
 Proof.
   revert ts acc. induction ops as [|op ops IH]; intros ts acc; [reflexivity|].
-  destruct op as [x|]; cbn [fold_left ts_step updates_of flat_map app fst snd].
+  destruct op as [x| |]; cbn [fold_left ts_step updates_of flat_map app fst snd].
   - rewrite IH. reflexivity.
   - unfold ts_generate. rewrite IH. reflexivity.
+  - apply IH.
 Qed.
+
+(** a persist / restore step anywhere in a history changes neither the states nor the reports *)
+Theorem persist_restore_noop ts ops1 ops2 :
+  ts_run ts (ops1 ++ TRt :: ops2) = ts_run ts (ops1 ++ ops2).
+Proof. unfold ts_run. rewrite !fold_left_app. reflexivity. Qed.
 
 Lemma ts_run_snoc ts ops op : ts_run ts (ops ++ [op]) = ts_step (ts_run ts ops) op.
 Proof. unfold ts_run. rewrite fold_left_app. reflexivity. Qed.
